@@ -12,9 +12,8 @@ open MongoModel MongoModel.Spec
 open MongoModel.Proofs.C10Lemmas MongoModel.Proofs.C09Lemmas MongoModel.Proofs.C14Lemmas
 open MongoModel.Proofs.C08Lemmas
 
-/-- the change test of the loop, on the `od` table -/
-def unchangedB (od : List Val) (key new old : Val) : Bool :=
-  if od.any (fun x => pyEq x key) then pyEqOrdered new old else pyEq new old
+/-- the change test of the loop: Python `==` between plain dicts -/
+def unchangedB (new old : Val) : Bool := pyEq new old
 
 /-- everything a successful single-document step does (no TTL index) -/
 theorem single_full (now : Int) (spec document nowV : Val) (p : Val × Val) (c : Coll)
@@ -25,7 +24,7 @@ theorem single_full (now : Int) (spec document nowV : Val) (p : Val × Val) (c :
     (∃ new, filterApplies spec p.2 = .ok true ∧
       applyUpdate spec document nowV false p.2 = .ok new ∧
       c1 = c.setDoc p.1 new ∧ m1 = m + 1 ∧
-      u1 = u + (if unchangedB c.od p.1 new p.2 then 0 else 1)) := by
+      u1 = u + (if unchangedB new p.2 then 0 else 1)) := by
   obtain ⟨key, v0⟩ := p
   rw [single_one] at h
   simp only at hl
@@ -48,12 +47,11 @@ theorem single_full (now : Int) (spec document nowV : Val) (p : Val × Val) (c :
       | ok new =>
         rw [ha] at h
         dsimp only at h
-        have hb : (if c.isOD key = true then pyEqOrdered new v0 else pyEq new v0) =
-            unchangedB c.od key new v0 := rfl
+        have hb : pyEq new v0 = unchangedB new v0 := rfl
         rw [hb] at h
         refine ⟨new, rfl, rfl, ?_⟩
         have hn' : (c.setDoc key new).ttlIndexes = [] := by rw [setDoc_ttl]; exact hn
-        cases hu : unchangedB c.od key new v0 with
+        cases hu : unchangedB new v0 with
         | true =>
           rw [hu] at h
           simp only [if_true] at h
@@ -82,28 +80,25 @@ theorem single_full (now : Int) (spec document nowV : Val) (p : Val × Val) (c :
               simp only [Prod.mk.injEq, Except.ok.injEq] at h
               exact ⟨h.1.symm, h.2.1.symm, by simpa using h.2.2.symm⟩
 
-theorem setDoc_od (c : Coll) (k d : Val) : (c.setDoc k d).od = c.od := by
-  unfold Coll.setDoc; split <;> rfl
-
 /-- the entry counts as modified -/
-def modB (spec : Val) (od : List Val) (pp : (Val × Val) × (Val × Val)) : Bool :=
-  matchB spec pp.1 && !unchangedB od pp.1.1 pp.2.2 pp.1.2
+def modB (spec : Val) (pp : (Val × Val) × (Val × Val)) : Bool :=
+  matchB spec pp.1 && !unchangedB pp.2.2 pp.1.2
 
 theorem many_count (now : Int) (spec document nowV : Val) :
     ∀ (pending done : List (Val × Val)) (c : Coll) (m u : Nat) (c' : Coll) (m' u' : Nat),
       c.docs = done ++ pending → c.ttlIndexes = [] → DK c.docs → GK c.docs →
       updateLoop now spec document nowV true pending c m u = (c', .ok (m', u')) →
-      ∃ pending', c'.docs = done ++ pending' ∧ c'.od = c.od ∧
+      ∃ pending', c'.docs = done ++ pending' ∧
         List.Forall₂ (Updated spec document nowV) pending pending' ∧
         m' = m + (pending.filter (matchB spec)).length ∧
-        u' = u + ((pending.zip pending').filter (modB spec c.od)).length := by
+        u' = u + ((pending.zip pending').filter (modB spec)).length := by
   intro pending
   induction pending with
   | nil =>
     intro done c m u c' m' u' hc hn _ _ h
     simp only [updateLoop, Prod.mk.injEq, Except.ok.injEq] at h
     obtain ⟨rfl, rfl, rfl⟩ := h
-    exact ⟨[], hc, rfl, .nil, rfl, rfl⟩
+    exact ⟨[], hc, .nil, rfl, rfl⟩
   | cons p rest ih =>
     intro done c m u c' m' u' hc hn hd hg h
     rw [many_cons] at h
@@ -122,9 +117,9 @@ theorem many_count (now : Int) (spec document nowV : Val) :
         rcases single_full now spec document nowV p c m u c1 m1 u1 hn hl hs with
           ⟨hf, rfl, rfl, rfl⟩ | ⟨new, hf, ha, rfl, rfl, rfl⟩
         · have hc1 : c1.docs = (done ++ [p]) ++ rest := by rw [hc]; simp
-          obtain ⟨pending', h1, h2, h3, h4, h5⟩ := ih (done ++ [p]) c1 m1 u1 c' m' u' hc1 hn hd hg h
+          obtain ⟨pending', h1, h3, h4, h5⟩ := ih (done ++ [p]) c1 m1 u1 c' m' u' hc1 hn hd hg h
           have hmb : matchB spec p = false := by unfold matchB; rw [hf]
-          refine ⟨p :: pending', by rw [h1]; simp, h2, .cons ⟨rfl, .inl ⟨hf, rfl⟩⟩ h3, ?_, ?_⟩
+          refine ⟨p :: pending', by rw [h1]; simp, .cons ⟨rfl, .inl ⟨hf, rfl⟩⟩ h3, ?_, ?_⟩
           · rw [h4, List.filter_cons, hmb]; rfl
           · rw [h5, List.zip_cons_cons, List.filter_cons]
             simp only [modB, hmb, Bool.false_and, Bool.false_eq_true, if_false]
@@ -136,17 +131,16 @@ theorem many_count (now : Int) (spec document nowV : Val) :
             rw [setDoc_docs new hk]; exact DK_map_setEntry _ _ hd
           have hg1 : GK (c.setDoc p.1 new).docs := by
             rw [setDoc_docs new hk]; exact GK_map_setEntry _ _ hg
-          obtain ⟨pending', h1, h2, h3, h4, h5⟩ :=
+          obtain ⟨pending', h1, h3, h4, h5⟩ :=
             ih (done ++ [(p.1, new)]) _ _ _ c' m' u' hc1 hn1 hd1 hg1 h
-          rw [setDoc_od] at h2 h5
           have hmb : matchB spec p = true := by unfold matchB; rw [hf]
-          refine ⟨(p.1, new) :: pending', by rw [h1]; simp, h2,
+          refine ⟨(p.1, new) :: pending', by rw [h1]; simp,
             .cons ⟨rfl, .inr ⟨hf, ha⟩⟩ h3, ?_, ?_⟩
           · rw [h4, List.filter_cons, hmb]
             simp only [if_true, List.length_cons]; omega
           · rw [h5, List.zip_cons_cons, List.filter_cons]
             simp only [modB, hmb, Bool.true_and]
-            cases unchangedB c.od p.1 new p.2 <;> (simp; try omega)
+            cases unchangedB new p.2 <;> (simp; try omega)
 
 /-! ### from the loop to the state after the call -/
 
@@ -188,7 +182,7 @@ theorem update_many_counts (cfg : Cfg) (now : Int) (c c' : Coll) (fs : Fields) (
     (hi : IdInv c) (hg : GoodKeys c) (hn : c.ttlIndexes = [])
     (hs : selectDocs (patchDT (.doc fs)) c.docs = .ok sel)
     (h : applyUpdateColl cfg now c (.doc fs) u false true = (c', .ok res)) :
-    res.n = sel.length ∧ res.nModified = (sel.filter (changedAfter c c')).length ∧
+    res.n = sel.length ∧ res.nModified = (sel.filter (contentChangedAfter c')).length ∧
     c'.docs.map (·.1) = c.docs.map (·.1) ∧ res.upserted = none := by
   rw [MongoModel.Proofs.C05Lemmas.applyUpdateColl_eq] at h
   split at h
@@ -196,7 +190,7 @@ theorem update_many_counts (cfg : Cfg) (now : Int) (c c' : Coll) (fs : Fields) (
     generalize patchDT (.doc fs) = spec at h hs hss
     generalize patchDT u = document at h hdd
     generalize patchDT (Val.date now none) = nowV at h
-    cases hem : emptyOperatorCheck cfg dfs with
+    cases hem : updatePrecheck cfg dfs with
     | error e => rw [hem] at h; cases h
     | ok _ =>
       rw [hem] at h
@@ -217,7 +211,7 @@ theorem update_many_counts (cfg : Cfg) (now : Int) (c c' : Coll) (fs : Fields) (
           simp only [MongoModel.Proofs.C05Lemmas.afterLoop, Bool.not_false, Bool.true_or, if_true,
             Prod.mk.injEq, Except.ok.injEq] at h
           obtain ⟨rfl, rfl⟩ := h
-          obtain ⟨pending', h1, h2, h3, h4, h5⟩ := many_count now spec document nowV c2.docs [] c2 0 0
+          obtain ⟨pending', h1, h3, h4, h5⟩ := many_count now spec document nowV c2.docs [] c2 0 0
             c3 matched updated rfl hn hi.1 hg hloop
           simp only [List.nil_append] at h1
           rw [← h1] at h3 h5
@@ -227,8 +221,8 @@ theorem update_many_counts (cfg : Cfg) (now : Int) (c c' : Coll) (fs : Fields) (
           obtain ⟨hsel, _⟩ := select_filter spec c2.docs sel hs
           have hzip : ∀ {a b : Val × Val}, (a, b) ∈ c2.docs.zip c3.docs →
               Updated spec document nowV a b := (List.forall₂_iff_zip.1 h3).2
-          have hcount : ((c2.docs.zip c3.docs).filter (modB spec c2.od)).length =
-              (c2.docs.filter (fun p => matchB spec p && changedAfter c2 c3 p)).length := by
+          have hcount : ((c2.docs.zip c3.docs).filter (modB spec)).length =
+              (c2.docs.filter (fun p => matchB spec p && contentChangedAfter c3 p)).length := by
             apply zip_filter_length _ _ h3
             intro pp hpp
             obtain ⟨p, p'⟩ := pp
@@ -238,10 +232,9 @@ theorem update_many_counts (cfg : Cfg) (now : Int) (c c' : Coll) (fs : Fields) (
               unfold Coll.lookup
               rw [← hup.1, find_of_mem hd3 hg3 hp']
               rfl
-            simp only [modB, changedAfter, hl, unchangedB, Coll.isOD]
-            rfl
-          have hfilt : c2.docs.filter (fun p => matchB spec p && changedAfter c2 c3 p) =
-              sel.filter (changedAfter c2 c3) := by
+            simp only [modB, contentChangedAfter, hl, unchangedB]
+          have hfilt : c2.docs.filter (fun p => matchB spec p && contentChangedAfter c3 p) =
+              sel.filter (contentChangedAfter c3) := by
             rw [hsel, List.filter_filter]
             apply List.filter_congr
             intro p _
